@@ -29,9 +29,9 @@ META = {
                     "a send refused with FIXConnectionError is a legal outcome for a sender (it must consume nothing)"],
 }
 REQUIRED_ORACLES = ["wire-order", "journal-row", "stored-counter", "no-duplicate-error", "all-tasks-finish", "gapfill-coverage"]
-REQUIRED_COUNTERS = ["schedules_with_socket_death", "schedules_by_scenario:S2", "schedules_by_scenario:S8", "schedules_by_scenario:S9", "schedules_by_scenario:S9b"]
+REQUIRED_COUNTERS = ["schedules_with_a_failed_journal_commit", "schedules_with_socket_death", "schedules_by_scenario:S2", "schedules_by_scenario:S8", "schedules_by_scenario:S9", "schedules_by_scenario:S9b"]
 NSHARDS = 16
-SCEN = ["S1", "S1b", "S2", "S2b", "S2c", "S3", "S3b", "S4", "S5", "S6", "S7", "S8", "S8b", "S9", "S9b"]
+SCEN = ["S1", "S1b", "S2", "S2b", "S2c", "S3", "S3b", "S4", "S5", "S6", "S7", "S8", "S8b", "S9", "S9b", "S10", "S10b"]
 DEPTH = {"quick": 7, "thorough": 11}
 MAXRUNS = {"quick": 700, "thorough": 30000}
 NRAND = {"quick": 25, "thorough": 1500}
@@ -43,7 +43,7 @@ def plan(tier, seed):
 
 def scenario_def(name):
     """role, setup sends, explored tasks (lists of actions), inbound frames (builders), ticks"""
-    d = {"role": "acceptor", "setup": 0, "tasks": [], "inbound": [], "ticks": 0, "hb": False, "logon": True, "death": False, "resume": False}
+    d = {"role": "acceptor", "setup": 0, "tasks": [], "inbound": [], "ticks": 0, "hb": False, "logon": True, "death": False, "resume": False, "jfail": False}
     if name == "S1":
         d.update(tasks=[["app:a1", "app:a2"], ["app:b1"], ["test_req"]])
     elif name == "S1b":
@@ -75,6 +75,12 @@ def scenario_def(name):
         d.update(tasks=[["app:a1", "app:a2"], ["app:b1"], ["test_req"]], resume=True)
     elif name == "S9b":
         d.update(inbound=[("tr", "T1"), ("app",)], tasks=[["app:x1"], ["app:y1"]], resume=True)
+    elif name == "S10":
+        # the journal fails the COMMIT of one outbound row (file locked, disk full) at a moment the scheduler picks: that send is refused,
+        # the senders around it are numbered and journaled as if it had never been tried
+        d.update(tasks=[["app:a1", "app:a2"], ["app:b1"], ["test_req"]], jfail=True)
+    elif name == "S10b":
+        d.update(inbound=[("tr", "T1"), ("app",)], tasks=[["app:x1"], ["app:y1", "app:y2"]], jfail=True)
     elif name == "S6":
         d.update(inbound=[("badhb",)], tasks=[["test_req", "app:x1"], ["app:y1"]])
     return d
@@ -100,6 +106,30 @@ async def run_schedule(name, clock, choices, rnd=None, max_decisions=80):
     dead = {"on": False, "eof": False, "lost": []}
 
     parking = {"on": True}
+    jf = {"armed": False, "n": 0, "used": False}
+    real_persist = j.persist_msg
+
+    def failing_persist(msg, session, direction):
+        if jf["armed"] and direction == D.OUTBOUND:
+            import sqlite3
+            jf["armed"] = False
+            jf["n"] += 1
+            real_conn = j.conn
+
+            class CommitFails:
+                def __getattr__(self, n):
+                    return getattr(real_conn, n)
+
+                def commit(self):
+                    raise sqlite3.OperationalError("database is locked")
+            j.conn = CommitFails()
+            try:
+                return real_persist(msg, session, direction)
+            finally:
+                j.conn = real_conn
+        return real_persist(msg, session, direction)
+    if d["jfail"]:
+        j.persist_msg = failing_persist
 
     async def drain_hook():
         if gated["on"] and parking["on"]:
@@ -231,6 +261,8 @@ async def run_schedule(name, clock, choices, rnd=None, max_decisions=80):
                 opts.append(("resume-transport", None))
             if ticks > 0 and d["hb"]:
                 opts.append(("tick", None))
+            if d["jfail"] and not jf["used"] and len(started) < len(d["tasks"]) and opts:
+                opts.append(("journal-fails", None))
             if not opts:
                 break
             if len(trace) >= max_decisions:
@@ -258,6 +290,9 @@ async def run_schedule(name, clock, choices, rnd=None, max_decisions=80):
                 tasks.append(asyncio.get_running_loop().create_task(run_task(arg, d["tasks"][arg])))
             elif kind == "feed":
                 ep.vf_reader.feed(build_inbound(inbound.pop(0)))
+            elif kind == "journal-fails":
+                jf["used"] = True
+                jf["armed"] = True
             elif kind == "resume-transport":
                 parking["on"] = False
             elif kind == "die":
@@ -274,7 +309,7 @@ async def run_schedule(name, clock, choices, rnd=None, max_decisions=80):
             "frames": frames, "all_frames": ep.vf_tap.frames(), "marks": marks[tap0:], "results": results, "unfinished": unfinished, "first_new": first_new,
             "live": ep._session.next_num_out, "stored": j.create_or_load("PEER", "ME").next_num_out,
             "rows": {}, "state": ep.connection_state.name, "swallowed": list(ep.vf_log.exceptions), "overlap": overlap,
-            "reader_dead": E.task_failure(ep), "death": dead["on"], "writes_after_death": len(dead["lost"]),
+            "reader_dead": E.task_failure(ep), "death": dead["on"], "writes_after_death": len(dead["lost"]), "journal_failures": jf["n"],
         }
         for b in j.recover_messages(ep._session, D.OUTBOUND, 0, sys.maxsize):
             obs["rows"][j.find_seq_no(b)] = b
@@ -302,6 +337,8 @@ def judge(acc, name, trace, obs, cid):
         acc.violation("schedule-did-not-terminate", obs["error"], w, cid)
         return
     keys = []
+    if obs.get("journal_failures"):
+        acc.add("schedules_with_a_failed_journal_commit")
     if obs.get("death"):
         acc.add("schedules_with_socket_death")
         acc.add("writes_discarded_after_death", obs.get("writes_after_death", 0))
@@ -364,6 +401,8 @@ def judge(acc, name, trace, obs, cid):
         for a, r in res:
             if r.startswith("raised:ConnectionResetError") and obs.get("death"):
                 continue        # the sender is told that its socket died: the expected outcome
+            if r.startswith("raised:OperationalError") and obs.get("journal_failures"):
+                continue        # the sender is told that the journal refused its message: the expected outcome
             if r.startswith("raised:"):
                 V("sender-saw-exception:" + r.split(":")[1], f"task {i} action {a}: {r}", "DuplicateSeqNoError" in r and _any_resend(obs))
     for e in obs["swallowed"]:
